@@ -77,3 +77,10 @@ Proof. vm_compute. repeat split. Qed.
 Example C02_directed_nonvacuous :
   dcs_run 0 10 [3%Z; 4%Z] (2%Z, 4) [(5%Z, 3); (1%Z, 9)] = (5%Z, 3, 15%Z) /\ dcs_run 0 10 [4%Z; 5%Z] (2%Z, 4) [(5%Z, 3); (1%Z, 9)] = (1%Z, 3, 3%Z).
 Proof. vm_compute. split; reflexivity. Qed.
+(* control::RRT on the integer line, 7 and -3 invalid, goal 12 (threshold 1), two candidate controls per extension *)
+Example C02_control_rrt_nonvacuous :
+  crrt_run [7; -3]%Z 12%Z 1%Z 1 [0%Z] [false; false; false] [5; 9; 20]%Z
+           [((2%Z, 3), [(1%Z, 5)]); ((3%Z, 2), [((-1)%Z, 4)]); ((2%Z, 2), [(1%Z, 1)])]
+  = ([(0%Z, None); (5%Z, Some (0, (1%Z, 5))); (11%Z, Some (1, (3%Z, 2))); (15%Z, Some (2, (2%Z, 2)))],
+     Some ([(None, 0%Z); (Some (1%Z, 5), 5%Z); (Some (3%Z, 2), 11%Z)], true, 1%Z)).
+Proof. vm_compute. reflexivity. Qed.
